@@ -25,6 +25,14 @@ def analyse_unit(path):
     for k in db.records:
         if k.startswith(T + 'internal::depth_guard') or k.startswith(T + 'internal::bytes_guard'):
             out['guards'].append((k, limits.deleted_copy_move(db, k)))
+    # L-width: the path enumeration treats the counter as an unbounded number; that is only right if the counter can hold every value up to Maximum + 1.
+    # Maximum is a std::size_t template parameter, so every place the counter lives in (the field of input_with_depth, the reference held by the guard)
+    # has to be an unsigned type at least as wide
+    out['widths'] = []
+    for k, r in db.records.items():
+        if k == T + 'internal::depth_guard' or k.startswith(T + 'input_with_depth<'):
+            for f in r.get('fields', []):
+                if f.get('n') == 'm_depth': out['widths'].append((k.split('<')[0], (f.get('t') or '').replace('&', '').replace('const', '').strip()))
     return out
 
 
@@ -48,6 +56,16 @@ def run(tier):
     for g, ok in guards.items():
         R.ob(ok=bool(ok), key=('guard', g))
         if not ok: R.violation('L-guard', g.replace(T, ''), 'the guard can be copied or moved: a copy would restore the counter / the end twice')
+    WIDE = {'unsigned long': 64, 'unsigned long long': 64, 'std::size_t': 64, 'size_t': 64}
+    NARROW = {'unsigned int': 32, 'unsigned short': 16, 'unsigned char': 8, 'int': 31, 'short': 15, 'signed char': 7, 'char': 7, 'long': 63, 'long long': 63, 'bool': 1}
+    widths = sorted(set(w for p in paths for w in results[p].get('widths', [])))
+    for cls, t in widths:
+        if t not in WIDE and t not in NARROW:
+            R.broke('type %s of the depth counter in %s is not known to this check' % (t, cls)); continue
+        ok = t in WIDE
+        R.ob(ok=ok, key=('width', cls, t))
+        if not ok: R.violation('L-width', 'contrib/input_with_depth.hpp::' + cls.replace(T, ''), 'the depth counter is kept in a %s (%d value bits) while the limit is a std::size_t: for every Maximum of %d or more the counter wraps before it can exceed the limit, nesting is unbounded and no error is raised' % (t, NARROW[t], 2 ** NARROW[t] - 1), key=('W', cls, t))
+    if len(widths) < 2: R.broke('the fields that hold the depth counter (input_with_depth::m_depth, depth_guard::m_depth) were not found')
     if len(guards) < 2: R.broke('depth_guard / bytes_guard records not found')
     for k in ('depth', 'bytes'):
         if kinds[k] < 4: R.broke('only %d limit_%s instantiations analysed (floor 4: both apply modes, both rewind modes)' % (kinds[k], k))
